@@ -8,7 +8,7 @@ J ?= 16
 setup: coq drivers harnesses
 
 coqproject:
-	@cd $(COQDIR) && flock .project.lock $(MAKE) -s -C .. coqproject-locked
+	@cd $(COQDIR) && flock .project.lock $(MAKE) -s -C $(CURDIR) coqproject-locked
 
 coqproject-locked:
 	@python3 translate/run_all.py >/dev/null || echo "translator refused a kernel (see ./check of the property)"
